@@ -720,6 +720,83 @@ fn ob_c09_exh_finalize_repetition_stride_small(t: u8, n: u8, lo: u8, hi: u8) {
     assert!(!v2.is_exhaustive(), "C09 a repetition of a body that spans two or more components is never always-exhaustive");
 }
 
+//@ob C09.exh.fold.discard
+//@ props: C09 C05
+//@ kind: bounded(a concatenation of one or two children for which the sequencer supplied exactly ONE term; that term symbolic (every termination and variance shape). Two or more supplied terms go through the Vec<TreeTerm> reduce and gave no verdict in 10 min)
+//@ unwind: 6
+//@ fns: src/token/variance/mod.rs::TreeExhaustiveness::fold src/token/mod.rs::Concatenation::fold<Depth> src/token/variance/invariant/mod.rs::BoundaryTerm<Depth>::is_exhaustive
+//@ pre: a real concatenation branch; the sequencer kept only its last child (whose term is supplied) -- either because it is the only child or because the child to its left is bounded in breadth or text
+//@ post: without discarded children the supplied term is returned unchanged; with a discarded (bounded) child to the left, an exhaustive term is returned unchanged (`a/**`: the bounded prefix does not matter) and a non-exhaustive term is replaced by a non-exhaustive one (never upgraded)
+fn ob_c09_exh_fold_discard(t: u8, k: u8, a: usize, b: usize, two: bool) {
+    use vnat::{mk_tv, valid_tv};
+    vassume!(t <= 4 && k <= 4 && valid_tv(k, a, b));
+    let v: TV = mk_tv(k, a, b);
+    let tokens = if two { vec![Token::new(leaf(0), ()), Token::new(leaf(2), ())] } else { vec![Token::new(leaf(2), ())] };
+    let branch: BranchKind<'static, ()> = BranchKind::Concatenation(Concatenation(tokens));
+    vcover!(two && k == 2);
+    vcover!(two && k == 4);
+    vcover!(!two);
+    let mut fold = variance::TreeExhaustiveness;
+    let out = crate::token::walk::Fold::<()>::fold(&mut fold, &branch, vec![Composition::Conjunctive(SeparatedTerm(mk_termination(t), v))]);
+    core::mem::forget(branch);
+    match out {
+        Some(Composition::Conjunctive(SeparatedTerm(t2, v2))) => {
+            if !two || v.is_exhaustive() {
+                assert!(v2 == v && t2 == mk_termination(t), "C09 a kept term is passed on unchanged");
+            }
+            else {
+                assert!(!v2.is_exhaustive(), "C09 a non-exhaustive suffix behind a bounded prefix is never upgraded");
+            }
+        },
+        Some(Composition::Disjunctive(d)) => {
+            core::mem::forget(d);
+            assert!(false, "C09 the fold of conjunctive terms is conjunctive")
+        },
+        None => assert!(false, "C09 a supplied term is never dropped"),
+    }
+}
+
+//@ob C09.exh.finalize.nested-stride
+//@ props: C09 C05
+//@ kind: bounded(stride n in 2..=4; inner and outer repetition bounds lower <= 3, upper <= 3 or open, all enumerated)
+//@ fns: src/token/variance/mod.rs::TreeExhaustiveness::finalize
+//@ pre: a body of invariant depth n >= 2 inside two nested repetitions with any (enumerated) bounds
+//@ post: the term finalised by the inner and then by the outer repetition is not exhaustive: `<<*/*/:1,2>:1,>` only matches depths that are multiples of 2, so the stride must not be forgotten by an inner bounded repetition and then multiplied into an unbounded range by an outer one
+fn ob_c09_exh_finalize_nested_stride(t: u8, n: u8, lo1: u8, hi1: u8, lo2: u8, hi2: u8) {
+    vassume!(t <= 4 && n >= 2 && n <= 4);
+    vassume!(lo1 <= 3 && hi1 <= 4 && hi1 >= 1 && (hi1 == 4 || lo1 <= hi1));
+    vassume!(lo2 <= 3 && hi2 <= 4 && hi2 >= 1 && (hi2 == 4 || lo2 <= hi2));
+    let bound = |hi: u8| match hi {
+        1 => Some(1),
+        2 => Some(2),
+        3 => Some(3),
+        _ => None,
+    };
+    let small = |lo: u8| match lo {
+        0 => 0usize,
+        1 => 1,
+        2 => 2,
+        _ => 3,
+    };
+    let inner = mk_repetition(small(lo1), bound(hi1));
+    let outer = mk_repetition(small(lo2), bound(hi2));
+    let v: TV = match n {
+        2 => Variance::Invariant(Depth::new(2)),
+        3 => Variance::Invariant(Depth::new(3)),
+        _ => Variance::Invariant(Depth::new(4)),
+    };
+    let term: InvariantTerm<Depth> = Composition::Conjunctive(SeparatedTerm(mk_termination(t), v));
+    vcover!(lo1 == 1 && hi1 == 2 && hi2 == 4);
+    let mut fold = variance::TreeExhaustiveness;
+    let once = crate::token::walk::Fold::<()>::finalize(&mut fold, &inner, term);
+    let once = Composition::Conjunctive(SeparatedTerm(mk_termination(t), unwrap_conjunctive(once)));
+    let twice = crate::token::walk::Fold::<()>::finalize(&mut fold, &outer, once);
+    core::mem::forget(inner);
+    core::mem::forget(outer);
+    let v2 = unwrap_conjunctive(twice);
+    assert!(!v2.is_exhaustive(), "C09 nested repetitions of a body that spans two or more components are never always-exhaustive");
+}
+
 //@ob C09.exh.finalize.repetition-unit
 //@ props: C09 C05
 //@ kind: bounded(repetition bounds enumerated: lower <= 3, upper <= 3 or open)
